@@ -9,6 +9,7 @@ cd /verif || exit 2
 git -C /repo worktree remove --force $WT >/dev/null 2>&1
 git -C /repo worktree add --detach $WT HEAD >/dev/null 2>&1 || exit 2
 ( cd $WT && git apply /verif/seeded/$S/patch.diff ) || { echo "seed=$S patch does not apply"; git -C /repo worktree remove --force $WT; exit 2; }
+cp /repo/Cargo.lock $WT/Cargo.lock
 mkdir -p /tmp/vout-seed /tmp/trylogs
 FLIPDOT_REPO=$WT VERIF_BUILD=${VERIF_BUILD_SEED:-/tmp/vbuild-seed} VERIF_OUT=/tmp/vout-seed/$S ./check $P --tier $T > /tmp/trylogs/$S.$P.$T.log 2>&1; rc=$?
 git -C /repo worktree remove --force $WT
